@@ -49,12 +49,35 @@ def compatible(c):
         z3.Implies(rk, ik))                                                               # arbitrary keywords with **kw
 
 
+def _sig_of_map(m):
+    return (L(unbox_seq(key(m, 'required'))), L(unbox_seq(key(m, 'positional'))), truthy(key(m, 'varargs')), truthy(key(m, 'kwargs')))
+
+
+# compat(R, I): the statement's quantified formulation over two signature mappings, behind a predicate symbol (definitional
+# axiom) so that callers can carry the fact without re-proving an arithmetic quantifier
+compat = z3.Function('every_admitted_call_binds', ObjMap, ObjMap, z3.BoolSort())
+_R, _I = z3.Consts('cm_R cm_I', ObjMap)
+
+
+def _compat_def(R_, I_):
+    rr, rp, rv, rk = _sig_of_map(R_)
+    ir, ip, iv, ik = _sig_of_map(I_)
+    n = z3.Int('n_args_d')
+    return z3.And(z3.ForAll([n], z3.Implies(z3.And(rr <= n, n <= rp), binds(n, ir, ip, iv))),
+                  z3.Implies(rv, z3.ForAll([n], z3.Implies(rr <= n, binds(n, ir, ip, iv)))), z3.Implies(rk, ik))
+
+
+reg.axiom('compat-def', z3.ForAll([_R, _I], compat(_R, _I) == _compat_def(_R, _I), patterns=[compat(_R, _I)]))
+
+
 reg.add(Proc(
     Vf + '_incompat', [('required', DICT), ('implemented', DICT)], source='verify.py:_incompat', result=OBJ,
     globals={'_MSG_TOO_MANY': V(NAME, strlit('implementation requires too many arguments'))},
     requires=lambda c: sig_wf(c, 'required') + sig_wf(c, 'implemented'),
     ensures=lambda c: [('none-iff-every-admitted-call-binds', (c.res == NONE) == compatible(c)),
-                       ('message-is-true', truthy(c.res) == z3.Not(compatible(c)))],
+                       ('message-is-true', truthy(c.res) == z3.Not(compatible(c))),
+                       ('the-same-through-the-predicate-symbol', truthy(c.res) == z3.Not(compat(
+                           c.h0('$dict')[c.a.required], c.h0('$dict')[c.a.implemented])))],
 ))
 
 # ------------------------------------------------------------------ _verify
@@ -94,12 +117,12 @@ reg.add(Proc(Vf + 'InterfaceClass.namesAndDescriptions', [('self', OBJ), ('all',
                                 z3.ForAll([_k], z3.Implies(z3.And(0 <= _k, _k < L(c.res)), z3.And(
                                     is_seq(c.res[_k]), L(unbox_seq(c.res[_k])) == 2)))],
              note='contract of C15: the (name, description) pairs along __iro__'))
-reg.add(Proc(Vf + '_verify_element', [('iface', OBJ), ('name', OBJ), ('desc', OBJ), ('candidate', OBJ), ('vtype', NAME)],
+reg.add(Proc(Vf + 'summary._verify_element', [('iface', OBJ), ('name', OBJ), ('desc', OBJ), ('candidate', OBJ), ('vtype', NAME)],
              trusted=True,
              raises={'Invalid': (lambda c: el_raises(c.a.iface, c.a.name, c.a.desc, c.a.candidate, c.a.vtype),
                                  lambda c: [c.res == el_exc(c.a.iface, c.a.name, c.a.desc, c.a.candidate, c.a.vtype)])},
-             note='per-element decision (attribute present, callable, signature compatible via _incompat): '
-                  'assumed here, checked bounded against inspect.Signature.bind by the falsifier'))
+             note='per-element decision as seen by _verify: raises exactly when element_invalid holds; the body of '
+                  '_verify_element is verified against the decision table that DEFINES element_invalid (below)'))
 reg.add(Proc(Vf + 'DoesNotImplement', [('interface', OBJ), ('target', OBJ)], trusted=True, result=OBJ,
              ensures=lambda c: [c.res == dni(c.a.interface, c.a.target), c.res != NONE]))
 reg.add(Proc(Vf + 'MultipleInvalid', [('iface', OBJ), ('target', OBJ), ('exceptions', LISTO)], trusted=True, result=OBJ,
@@ -119,6 +142,7 @@ def total(c):
 reg.add(Proc(
     Vf + '_verify', [('iface', OBJ), ('candidate', OBJ), ('tentative', BOOL), ('vtype', NAME)],
     source='verify.py:_verify', result=BOOL, finite={'vtype': ['c', 'o']},
+    calls={'_verify_element': Vf + 'summary._verify_element'},
     modifies=['$list', 'exceptions'],
     raises={'Invalid': (
         lambda c: L(total(c)[1]) > 0,
@@ -135,3 +159,138 @@ reg.add(Proc(
         ('exceptions-unchanged', c.h('exceptions') == c.h0('exceptions')),
     ])},
 ))
+
+
+# ------------------------------------------------------------------ _verify_element: the per-element decision table
+# Oracles for what the body asks about Python objects (attribute protocol, type predicates); the signature of a description
+# is the mapping getSignatureInfo() returns (Method descriptions: contract of C18 for fromFunction/fromMethod).
+has_attr = z3.Function('candidate_has_attribute', Obj, Obj, B)
+attr_of = z3.Function('candidate_attribute', Obj, Obj, Obj)
+no_signature = z3.Function('is_methoddescriptor_or_builtin', Obj, B)
+siginfo = z3.Function('signature_info_of_description', Obj, ObjMap)          # desc.getSignatureInfo()
+implsig = z3.Function('signature_info_of_function', Obj, z3.IntSort(), ObjMap)   # fromFunction(f, imlevel=k).getSignatureInfo()
+callable_ = z3.Function('callable', Obj, B)
+CLS = {n: classconst(n) for n in ('Method', 'FunctionType', 'MethodTypes', 'property', 'type')}
+FIELDS['__func__'] = OBJ
+reg.fields['__func__'] = OBJ
+FIELDS['$desc_sig'] = z3.ArraySort(Obj, ObjMap)
+reg.fields['$desc_sig'] = z3.ArraySort(Obj, ObjMap)
+
+
+def _isa(x, cls):
+    return subtype(typeof(x), CLS[cls])
+
+
+def sig_m(m):
+    return (L(unbox_seq(key(m, 'required'))), L(unbox_seq(key(m, 'positional'))), truthy(key(m, 'varargs')), truthy(key(m, 'kwargs')))
+
+
+def compatible_m(req, impl):
+    rr, rp, rv, rk = sig_m(req)
+    ir, ip, iv, ik = sig_m(impl)
+    n = z3.Int('n_args_m')
+    return z3.And(z3.ForAll([n], z3.Implies(z3.And(rr <= n, n <= rp), binds(n, ir, ip, iv))),
+                  z3.Implies(rv, z3.ForAll([n], z3.Implies(rr <= n, binds(n, ir, ip, iv)))), z3.Implies(rk, ik))
+
+
+def wf_m(m):
+    return z3.And(*[z3.And(key(m, k) != ABSENT, is_seq(key(m, k))) for k in ('required', 'positional')],
+                  *[key(m, k) != ABSENT for k in ('varargs', 'kwargs')],
+                  L(unbox_seq(key(m, 'required'))) <= L(unbox_seq(key(m, 'positional'))))
+
+
+def element_invalid_def(c, func_field):
+    """the decision table of the statement for one (name, description) of the interface"""
+    cand, name, desc, vt = c.a.candidate, c.a.name, c.a.desc, c.a.vtype
+    attr = attr_of(cand, name)
+    is_c = vt == strlit('c')
+    is_meth = _isa(desc, 'Method')
+    fn = _isa(attr, 'FunctionType')
+    bound = z3.And(_isa(attr, 'MethodTypes'), typeof(func_field[attr]) == CLS['FunctionType'])
+    imlevel = z3.If(z3.And(_isa(cand, 'type'), is_c), 1, 0)
+    return z3.If(z3.Not(has_attr(cand, name)), z3.Not(z3.And(z3.Not(is_meth), is_c)),       # missing: only a non-method on a class passes
+           z3.If(z3.Not(is_meth), False,                                                  # attributes: presence is all
+           z3.If(no_signature(attr), False,                                               # no signature to introspect
+           z3.If(fn, z3.Not(compat(siginfo(desc), implsig(attr, imlevel))),         # function (self dropped for class verification)
+           z3.If(bound, z3.Not(compat(siginfo(desc), implsig(func_field[attr], 1))),  # bound method
+           z3.If(z3.And(_isa(attr, 'property'), is_c), False,                             # property on a class: cannot tell
+                 z3.Not(callable_(attr))))))))                                            # anything else must at least be callable
+
+
+def _getattr(ex, node, st):
+    """getattr(candidate, name): the attribute, or AttributeError (oracle has_attr)"""
+    out = []
+    for s, (o, n) in ex.ev_list(node.args, st):
+        miss = s.clone()
+        miss.assume(z3.Not(has_attr(box(o), box(n))))
+        ex.raise_(miss, 'AttributeError')
+        s.assume(has_attr(box(o), box(n)))
+        out.append((s, vobj(attr_of(box(o), box(n)))))
+    return out
+
+
+def _no_sig(ex, node, st):
+    return [(s, vbool(no_signature(box(v)))) for s, (v,) in ex.ev_list(node.args, st)]
+
+
+def _sig_dict(ex, st, content):
+    r = ex.fresh_ref(st, 'dict')
+    ex.set_dictval(st, r, content)
+    st.assume(wf_m(content))
+    return r
+
+
+def _from_function(ex, node, st):
+    """fromFunction(attr, iface, name=name[, imlevel=1]): a description of that function (contract of C18)"""
+    im = 0
+    for kw in node.keywords:
+        if kw.arg == 'imlevel':
+            im = kw.value.value
+    out = []
+    for s, vs in ex.ev_list(node.args[:1], st):
+        m = ex.fresh_ref(s, 'method')
+        s.heap.set('$desc_sig', z3.Store(s.heap.get('$desc_sig'), m, implsig(box(vs[0]), z3.IntVal(im))))
+        out.append((s, vobj(m)))
+    return out
+
+
+def _from_method(ex, node, st):
+    out = []
+    for s, vs in ex.ev_list(node.args[:1], st):
+        m = ex.fresh_ref(s, 'method')
+        f = z3.Select(s.heap.get('__func__'), box(vs[0]))
+        s.heap.set('$desc_sig', z3.Store(s.heap.get('$desc_sig'), m, implsig(f, z3.IntVal(1))))
+        out.append((s, vobj(m)))
+    return out
+
+
+def _get_sig(ex, node, st, recv=None):
+    """x.getSignatureInfo(): a fresh dict with the signature of the description"""
+    out = []
+    for s, v in ex.ev(node.func.value, st):
+        content = z3.Select(s.heap.get('$desc_sig'), v.t)
+        out.append((s, V(DICT, _sig_dict(ex, s, content))))
+    return out
+
+
+def _ve_pre(c):
+    return [('the-description-has-its-signature', c.h('$desc_sig')[c.a.desc] == siginfo(c.a.desc)),
+            ('arguments-are-objects', z3.And(c.a.candidate != NONE, c.a.desc != NONE, c.h('$alloc')[c.a.desc]))]
+
+
+_ve_raises = {
+    'BrokenImplementation': (lambda c: z3.And(z3.Not(has_attr(c.a.candidate, c.a.name)), element_invalid_def(c, c.h0('__func__'))), lambda c: []),
+    'BrokenMethodImplementation': (lambda c: z3.And(has_attr(c.a.candidate, c.a.name), element_invalid_def(c, c.h0('__func__'))), lambda c: []),
+}
+reg.add(Proc(
+    Vf + '_verify_element', [('iface', OBJ), ('name', OBJ), ('desc', OBJ), ('candidate', OBJ), ('vtype', NAME)],
+    source='verify.py:_verify_element', finite={'vtype': ['c', 'o']}, globals={'FunctionType': V(OBJ, CLS['FunctionType'])},
+    calls={'getattr': _getattr, 'inspect.ismethoddescriptor': _no_sig, 'inspect.isbuiltin': _no_sig,
+           'fromFunction': _from_function, 'fromMethod': _from_method,
+           'desc.getSignatureInfo': _get_sig, 'meth.getSignatureInfo': _get_sig, '_incompat': Vf + '_incompat'},
+    requires=_ve_pre, raises=_ve_raises, modifies=['$alloc', '$dict', '$desc_sig'],
+    ensures=lambda c: [('passes-exactly-when-the-decision-table-accepts', z3.Not(element_invalid_def(c, c.h0('__func__'))))],
+))
+reg.assumptions.append('_verify_element: getattr/ismethoddescriptor/isbuiltin/isinstance/callable are oracles over the candidate; ismethoddescriptor and '
+                       'isbuiltin are merged into one "no signature" oracle (both only lead to the same early return); fromFunction/fromMethod/'
+                       'getSignatureInfo by the contract of C18 (the description carries the signature mapping of the function at the given imlevel)')
